@@ -198,4 +198,9 @@ def c14(tier, seed):
     return m.check("C14", tier, seed)
 
 
-CHECKS = {"C09": c09, "C14": c14, "C01": c01, "C03": c03, "C04": c04, "C05": c05, "C06": c06, "C07": c07, "C13": c13, "C16": c16}
+def c18(tier, seed):
+    import c18 as m
+    return m.check(tier, seed)
+
+
+CHECKS = {"C18": c18, "C09": c09, "C14": c14, "C01": c01, "C03": c03, "C04": c04, "C05": c05, "C06": c06, "C07": c07, "C13": c13, "C16": c16}
